@@ -16,6 +16,13 @@ use crate::suite::Suite;
 thread_local! {
     static LOG: RefCell<Vec<(&'static str, Vec<u8>, Vec<u8>)>> = RefCell::new(vec![]);
 }
+/// Run `f` without leaving a trace in the query log (harness-side side computations).
+pub fn unlogged<T>(f: impl FnOnce() -> T) -> T {
+    let n = LOG.with(|l| l.borrow().len());
+    let r = f();
+    LOG.with(|l| l.borrow_mut().truncate(n));
+    r
+}
 fn log(tag: &'static str, pre: &[u8], out: &[u8]) {
     LOG.with(|l| l.borrow_mut().push((tag, pre.to_vec(), out.to_vec())));
 }
